@@ -3,6 +3,15 @@
 # the evidence next to what the engine measured.
 
 PROPS = {
+    "C01": {
+        "groups": [
+            {"pkg": "server", "tags": "verif,test", "harness": "^verifH_C01_signed"},
+            {"pkg": "server", "tags": "verif,test", "harness": "^verifH_C01_arbitrary", "replay": "symbolic",
+             "replay_note": "Verify is an uninterpreted function in this harness; a model may need Verify(garbage)=true, which no native run can produce"},
+        ],
+        "bounds": {"devices": 1, "datagram length": "0..200", "offset": "multiple of 2016, <= 2^32-6050"},
+        "outside": ["unforgeability of secp256k1/Keccak", "kernel UDP delivery"],
+    },
     "C19": {
         "groups": [
             {"pkg": "glow", "tags": "verif", "harness": "^verifH_C19_", "now_hook": ["glow/rate_limiter.go"]},
@@ -25,3 +34,5 @@ PROPS = {
         "outside": ["unix times beyond genesis+2^32-1 s (uint32(time-genesis) wraps)"],
     },
 }
+
+NOT_APPLICABLE = {}
